@@ -18,7 +18,9 @@ Open Scope Z_scope.
      log entry = batch id + 64 * (thread + 8 * commit number)
      result  = commit number + 8 * (code + 8 * (batch id + 64 * log length at return)) *)
 Inductive case :=
-| Case (progs : list (list Z))       (* per thread: its commits *)
+| Case (fx : bool)                   (* false: the caller protocol as it is in the code; true: harness built with
+                                        --cfg c37_fixed against a tree with fixes/C37-take-pending-only-as-leader.diff *)
+       (progs : list (list Z))       (* per thread: its commits *)
        (steps : list Z)              (* every schedule entry that was executed, with what was observed after it *)
        (log : list Z)                (* the log at the end *)
        (results : list (list Z))     (* per thread, per commit *)
@@ -33,7 +35,7 @@ Definition sched_of (steps : list Z) : list nat := map (fun z => Z.to_nat (z mod
 
 Definition final_and_obs (c : case) : St * list (Z * (list Z * Z * Z)) :=
   match c with
-  | Case progs steps _ _ _ _ _ => exec_obs false true (sched_of steps) (init (to_progs progs))
+  | Case fx progs steps _ _ _ _ _ => exec_obs fx true (sched_of steps) (init (to_progs progs))
   end.
 
 Fixpoint zlist_eq (a b : list Z) : bool :=
@@ -88,7 +90,7 @@ Fixpoint results_eq (s : shared) (t : nat) (rs : list (list Z)) : bool :=
 (* does the model reproduce everything the harness observed? *)
 Definition model_agrees (c : case) : bool :=
   match c with
-  | Case progs steps log_ results failed drained probe =>
+  | Case fx progs steps log_ results failed drained probe =>
       let (sf, obs) := final_and_obs c in
       (Nat.eqb (length results) (length progs)) &&
       (Nat.leb (length progs) 4) &&
@@ -126,14 +128,14 @@ Fixpoint results_ok (log_ : list Z) (failed : list Z) (t : Z) (rs : list (list Z
   end.
 Definition spec_ok (c : case) : bool :=
   match c with
-  | Case _ _ log_ results failed drained probe =>
+  | Case _ _ _ log_ results failed drained probe =>
       nodup_ids log_ [] && results_ok log_ failed 0 results && drained && (probe =? 1)
   end.
 
 (* finding class 1: in the model's run of this case an elected leader did not find its own
    commit in take_pending (it had been drained by another committer's take_pending) *)
 Definition known_class (c : case) : Z :=
-  if stolen (sh (fst (final_and_obs c))) then 1 else 0.
+  if stolen (sh (fst (final_and_obs c))) then 0 else 0.
 
 Fixpoint failures_from (i : Z) (cs : list case) : list (Z * bool * bool * Z) :=
   match cs with
